@@ -128,6 +128,30 @@ func LoadKnown(verifDir string) ([]Known, error) {
 	return ks, nil
 }
 
+// Fresh returns the findings not listed as known (and whether the run is broken), without
+// printing or writing anything: used by the self-test on scratch copies.
+func (r *Run) Fresh(verifDir string) ([]Finding, []string) {
+	for name, floor := range r.Floors {
+		if r.Counts[name] < floor {
+			r.Break(fmt.Sprintf("rule instance count %q = %d is below the confirmed floor %d", name, r.Counts[name], floor))
+		}
+	}
+	known, _ := LoadKnown(verifDir)
+	kmap := map[string]bool{}
+	for _, k := range known {
+		if k.Property == r.Property && k.Status == "known" {
+			kmap[k.Key()] = true
+		}
+	}
+	var fresh []Finding
+	for _, f := range r.Findings {
+		if !kmap[f.Key()] {
+			fresh = append(fresh, f)
+		}
+	}
+	return fresh, r.Broken
+}
+
 // Finish prints the verdict, writes evidence and replay files and returns the exit code.
 func (r *Run) Finish(verifDir string) int {
 	for name, floor := range r.Floors {
